@@ -21,11 +21,18 @@ def nfft_py(arg):
 
 def replay_layout(chk, st, data):
     dt, N, arg, nfft, sides, ln, bins = (st[k] for k in ('dt', 'N', 'arg', 'nfft', 'sides', 'len', 'bins'))
-    x = data[(dt, N)]
     sampling = SAMPLINGS[(N + arg) % 3]
+    # complex data: also the real samples declared complex (complex dtype, zero imaginary part) as an array
+    # and as a python list - the datatype is what the caller declares, not what the values look like
+    inputs = [('', data[(dt, N)])]
+    if dt == 'complex':
+        inputs += [(':zero-imag', data[('real', N)].astype(complex)), (':zero-imag-list', [complex(v) for v in data[('real', N)]])]
+    else:
+        inputs += [(':list', [float(v) for v in data[('real', N)]])]
     for name in zoo.CLASSES:
-        case = {'cls': name, 'dt': dt, 'N': N, 'NFFT_arg': arg, 'expect': {'NFFT': nfft, 'sides': sides, 'len': ln}}
-        ok, obj = call_guard(zoo.build, name, x.copy(), nfft_py(arg), sampling)
+      for tag, x in inputs:
+        case = {'cls': name, 'dt': dt + tag, 'N': N, 'NFFT_arg': arg, 'expect': {'NFFT': nfft, 'sides': sides, 'len': ln}}
+        ok, obj = call_guard(zoo.build, name, x.copy() if hasattr(x, 'copy') and not isinstance(x, list) else list(x), nfft_py(arg), sampling)
         chk.evaluations += 1
         if ok:
             ok, psd = call_guard(lambda: np.array(obj.psd))
@@ -46,6 +53,10 @@ def replay_layout(chk, st, data):
             chk.violation('C02:layout:%s:%s:%s:axis' % (name, dt, par), '%s frequencies() are not k*sampling/NFFT' % name, case)
         if np.iscomplexobj(psd) or not np.all(np.isfinite(psd)):
             chk.violation('C02:layout:%s:%s:%s:real-finite' % (name, dt, par), '%s psd is not real and finite' % name, case)
+        # an explicit second computation of the same object puts the same values on the same axis
+        ok2, psd2 = call_guard(lambda: (obj(), np.array(obj.psd))[1])
+        if not ok2 or psd2.shape != psd.shape or np.max(np.abs(psd2 - psd)) > 1e-9 * np.max(np.abs(psd)) or len(obj.frequencies()) != ln:
+            chk.violation('C02:layout:%s:%s:%s:recompute' % (name, dt, par), '%s: a second computation of the same object changes the values / the axis' % name, case)
     chk.replayed += 1
     chk.count('layout', 'replayed')
     if arg == 1:
@@ -101,9 +112,34 @@ def tone_events(chk):
                     else:
                         ev.update(lenpsd=0, lenfreq=0, realfinite=False, fbin=0)
                     batch.add(ev, {'cls': name, 'dt': dt, 'N': N, 'nfft': nfft, 'k': int(k), 'seed': chk.seed})
-    obs.validate(chk, batch, 'obs-tones', lambda ev, cl: 'C02:tone:%s:%s:%s:%s' % (ev['cls'], ev['dt'], 'odd' if ev.get('nfft_asked', ev['nfft']) % 2 else 'even', cl),
-                 lambda ev, cl: '%s, %s tone at bin %d of NFFT=%d (N=%d): clause "%s" fails: peak reported at bin %s (%s)'
-                 % (ev['cls'], ev['dt'], ev['k'], ev.get('nfft_asked', ev['nfft']), ev['N'], cl, ev.get('fbin'), ev))
+    # real data: the one-sided values are the two-sided values of the same samples declared complex, placed on
+    # the positive axis by the class's own rule (ObsC02: same / folded / doubled)
+    for N, nfft in confs[:3]:
+        xr = zoo.signal(rng, N, False, 'tones')
+        for name in zoo.CLASSES:
+            ev = {'ev': 'fold', 'cls': name, 'N': N, 'nfft': nfft}
+            ok1, one = call_guard(lambda: np.array(zoo.build(name, xr.copy(), nfft).psd))
+            ok2, two = call_guard(lambda: np.array(zoo.build(name, xr.astype(complex), nfft).psd))
+            ev['raised'] = not (ok1 and ok2)
+            if ok1 and ok2 and len(two) == nfft:
+                h = nfft // 2 + 1 if nfft % 2 == 0 else (nfft + 1) // 2
+                sc = float(np.max(np.abs(two)))
+                fold = two[:h].copy()
+                for k in range(1, h):
+                    if not (nfft % 2 == 0 and k == nfft // 2):
+                        fold[k] += two[nfft - k]
+                ev['len_ok'] = bool(len(one) == h)
+                if len(one) == h:
+                    ev['same_dev'] = obs.q(np.max(np.abs(one - two[:h])) / sc)
+                    ev['fold_dev'] = obs.q(np.max(np.abs(one - fold)) / sc)
+                    ev['double_dev'] = obs.q(np.max(np.abs(one - 2 * two[:h])) / sc)
+                else:
+                    ev.update(same_dev=obs.QCAP, fold_dev=obs.QCAP, double_dev=obs.QCAP)
+            else:
+                ev.update(len_ok=False, same_dev=0, fold_dev=0, double_dev=0)
+            batch.add(ev, {'cls': name, 'N': N, 'nfft': nfft, 'seed': chk.seed})
+    obs.validate(chk, batch, 'obs-tones', lambda ev, cl: 'C02:%s:%s:%s:%s:%s' % (ev['ev'], ev['cls'], ev.get('dt', 'real'), 'odd' if ev.get('nfft_asked', ev['nfft']) % 2 else 'even', cl),
+                 lambda ev, cl: '%s (NFFT=%d, N=%d): clause "%s" fails: %s' % (ev['cls'], ev.get('nfft_asked', ev['nfft']), ev['N'], cl, ev))
     chk.sample('obs-event', batch.events[0], 1)
 
 
